@@ -7,6 +7,7 @@ package e3order
 import (
 	"fmt"
 	"go/ast"
+	"go/constant"
 	"go/token"
 	"go/types"
 	"sort"
@@ -183,6 +184,16 @@ func (a *Analyzer) CollectUnits(units []Unit) {
 					if sel, ok := call.Fun.(*ast.SelectorExpr); ok && sel.Sel.Name == "Next" {
 						if tv, ok := info.Types[sel.X]; ok && isGonumIter(tv.Type) {
 							ranged := "iterator:" + exprKey(sel.X)
+							// for it := g.Lines(…); it.Next(); { … }: the iterator is defined by the loop's own init statement
+							if as, ok := s.Init.(*ast.AssignStmt); ok && len(as.Lhs) == 1 && len(as.Rhs) == 1 {
+								if lid, ok := as.Lhs[0].(*ast.Ident); ok {
+									if tv, ok := info.Types[as.Rhs[0]]; ok && isGonumIter(tv.Type) {
+										if obj := objOf(info, lid); obj != nil {
+											iterVars[obj] = as.Rhs[0]
+										}
+									}
+								}
+							}
 							if id, ok := sel.X.(*ast.Ident); ok {
 								if def, ok := iterVars[objOf(info, id)]; ok {
 									ranged = "iterator:" + exprKey(def)
@@ -763,8 +774,22 @@ func (c *bodyCtx) findByKey(s *ast.IfStmt) bool {
 	if n == 0 {
 		return false
 	}
-	br, ok := s.Body.List[n-1].(*ast.BranchStmt)
-	if !ok || br.Tok != token.BREAK {
+	switch last := s.Body.List[n-1].(type) {
+	case *ast.BranchStmt:
+		if last.Tok != token.BREAK {
+			return false
+		}
+	case *ast.ReturnStmt:
+		// return of what belongs to the one matching key (keys are unique: whichever order, the same iteration returns)
+		if c.effectsBefore() {
+			return false
+		}
+		for _, res := range last.Results {
+			if ok, _ := c.exprPure(res); !ok {
+				return false
+			}
+		}
+	default:
 		return false
 	}
 	for _, st := range s.Body.List[:n-1] {
@@ -793,6 +818,13 @@ func (c *bodyCtx) assign(s *ast.AssignStmt, joinTarget string) {
 		}
 	}
 	for _, r := range s.Rhs {
+		if call, isCall := ast.Unparen(r).(*ast.CallExpr); isCall {
+			if m, ok := c.a.joinHelperCall(c.info, call); ok {
+				// isNew := mergeMax(m, k, v): the slot-wise maximum join, its result telling whether the key was absent
+				c.effect("join(" + lastName(m) + ")")
+				continue
+			}
+		}
 		if ok, why := c.exprPure(r); !ok {
 			c.effect("call")
 			c.problem(r.Pos(), "right-hand side has an effect: "+why)
@@ -1093,6 +1125,31 @@ func isJoinHelperSSA(f *ssa.Function) bool {
 				}
 			case *ssa.Store, *ssa.Send, *ssa.Go, *ssa.Defer, *ssa.Panic:
 				return false
+			case *ssa.Return:
+				// an optional result may only tell whether the key was present (a constant per branch, or the comma-ok flag)
+				var presence func(r ssa.Value, depth int) bool
+				presence = func(r ssa.Value, depth int) bool {
+					switch y := r.(type) {
+					case *ssa.Const:
+						return y.Value != nil && y.Value.Kind() == constant.Bool
+					case *ssa.UnOp:
+						return y.Op == token.NOT && depth < 4 && presence(y.X, depth+1)
+					case *ssa.Extract:
+						lk, ok := y.Tuple.(*ssa.Lookup)
+						return ok && y.Index == 1 && lk.X == ssa.Value(m) && lk.Index == ssa.Value(k)
+					case *ssa.Phi:
+						for _, e := range y.Edges {
+							if depth > 4 || !presence(e, depth+1) {
+								return false
+							}
+						}
+						return true
+					}
+					return false
+				}
+				if len(x.Results) > 1 || (len(x.Results) == 1 && !presence(x.Results[0], 0)) {
+					return false
+				}
 			case *ssa.Call:
 				if _, isB := x.Common().Value.(*ssa.Builtin); isB {
 					continue
